@@ -3,7 +3,7 @@
    three line-to-line phase angles and is covered by a transformer constraint.
 
    Gen/Sites.v is the dump of the EXECUTED factories caltech_acn / jpl_acn / office001_acn
-   (basic and real EVSE types, three capacity settings each), regenerated on every run;
+   (basic and real EVSE types, three capacity settings each, `voltage` argument 208 / 200 / 120 / 240), regenerated on every run;
    Model/Sites.v::check_site is a boolean checker of that dump; site_net_R s is the network the
    dump denotes (phase angles turned into cos/sin of deg2rad) and net_is_feasible RF is
    ChargingNetwork.is_feasible (Model/Feasible.v, C06).  Statements only. *)
@@ -89,15 +89,33 @@ Theorem C16_every_site : forall s, In s all_sites -> check_site s = true.
 Proof. exact all_sites_ok. Qed.
 Print Assumptions C16_every_site.
 
-(* All transformer capacities: the limit formulas of the three factories (regenerated from the
-   code, symbolic in the capacity) give 3 * 120 V * L(cap) = 1000 * cap for EVERY cap;
-   check_transformer ties each dumped limit to its formula. *)
+(* All transformer capacities, whatever the factories' `voltage` argument: the limit formulas of
+   the three factories (regenerated from the code, symbolic) are functions of the capacity ALONE
+   (the generated definitions take no voltage parameter; for JPL the helper's literal default
+   secondary voltage is inlined and an AST check of jpl_acn, redone on every run, confirms that
+   every call uses that default) and give 3 * 120 V * L(cap) = 1000 * cap for EVERY cap.
+   check_transformer ties each dumped limit — dumps cover voltage = 208, 200, 120, 240 — to the
+   formula and to the capacity at the nominal 120 V. *)
 Theorem C16_all_caps : forall cap : R,
   3 * 120 * Gen.SiteLim_R.Caltech_secondary cap = 1000 * cap
   /\ 3 * 120 * Gen.SiteLim_R.Jpl_secondary cap = 1000 * cap
   /\ 3 * 120 * Gen.SiteLim_R.Office_secondary cap = 1000 * cap.
 Proof. exact all_caps. Qed.
 Print Assumptions C16_all_caps.
+
+Theorem C16_limits_independent_of_voltage :
+  jpl_calls_use_default_secondary_voltage = true
+  /\ forall s, In s all_sites -> forall tr, In tr (s_transformers s) ->
+       (3 * 120 * site_limit s (t_a tr) <= 1000 * t_cap tr * (1 + eps50))%Q.
+Proof.
+  split; [exact jpl_default_voltage|].
+  intros s Hs tr Htr.
+  destruct (check_site_parts s (all_sites_ok s Hs)) as (_ & _ & _ & H & _).
+  specialize (H tr Htr). unfold check_transformer in H.
+  repeat (apply andb_true_iff in H; destruct H as [H ?]).
+  match goal with H : Qleb (3 * 120 * _) _ = true |- _ => now apply Qleb_spec in H end.
+Qed.
+Print Assumptions C16_limits_independent_of_voltage.
 
 (* Every EVSE carries one of the three line-to-line phase angles (30, -90, 150 degrees) and hangs
    behind a transformer whose constraint rows pass check_transformer (so C16_delta_wye applies). *)
@@ -143,7 +161,7 @@ Print Assumptions C16_sites_safe.
 (* non-vacuity: the Caltech dump has a transformer with stations behind it and pods, a concrete
    schedule (5 A on every EVSE) that its network accepts, and one (32 A) that it rejects *)
 Example C16_caltech_example :
-  let s := site_caltech_real_0 in
+  let s := site_caltech_0 in
   let N := n_site_stations s in
   (exists tr, In tr (s_transformers s) /\ t_members tr <> [])
   /\ s_pods s <> []
